@@ -20,7 +20,9 @@ def jobs(tier, seed):
                 continue
             if j["kind"] == "solve" and j["c"]["P"] == 2 and j["c"]["M"] > 8:
                 continue
-            if j["kind"] == "moment" and (j["bM"], j["bN"]) != ("Cardinal", "Cardinal") and not (j["scale"] == 1 and j["N"] <= 9):
+            if j["kind"] == "moment" and (j["bM"], j["bN"]) != ("Cardinal", "Cardinal") and not (j["scale"] == 1 and j["N"] <= 9 and j["hist"] == "fresh"):
+                continue
+            if j["kind"] == "moment" and j["hist"] == "rescaled" and not (j["mass"] == 2 and j["N"] <= 9):
                 continue
             keep.append(j)
         js = keep
@@ -46,7 +48,7 @@ def run(chk, tier, seed):
     chk.extra.update(jobs=kinds, checker_cmd=f"tlc Boltzmann.tla ; tlc TraceBoltzmann.tla (PROP={PROP})")
     chk.rule = ("jobs = states of Boltzmann.tla: solve (4 bases x 2 derivative modes x sizes x 1-2 particles x 5 backgrounds, admissible only), "
                 "basis cells (4 basis pairs compared), finite-difference chains M=10..80 per background kind, moment cells (odd N 3..15 x 4 momentum "
-                "scales x 3 mass profiles x 2 grid classes x 4 basis pairs of the solver); distinct = distinct job")
+                "scales x 3 mass profiles x 2 grid classes x 4 basis pairs of the solver x grid constructed at / rescaled to its momentum scale); distinct = distinct job")
     chk.assumptions += ["synthetic diagonally dominant collision operators; tanh backgrounds", "own Chebyshev matrices for comparing deviations across bases",
                         "closed-form Gauss-Chebyshev moments for the identification table"]
 
